@@ -137,7 +137,7 @@ let () =
         | "H" :: fail :: ops -> run_H (zs fail) ops
         | "V" :: s :: fail :: ops -> multi_arg := false; run_V (zs s) (zs fail) ops
         | "W" :: tag :: fail :: ops -> multi_arg := List.mem tag ["S"; "I"; "i"]; run_V (sizeof_tag tag) (zs fail) ops
-        | ["A"] -> "addr=1 eq=1 ne=0 rebind=1 max=1 hint=ok hint_len=length_error stack=1"
+        | ["A"] -> "addr=1 eq=1 ne=0 rebind=1 max=1 hint=ok hint_len=length_error xeq=1 xfree=ok stack=1"
         | ["T"; s; n; a; ans] -> run_T (zs s) (zs n) (zs a) ans
         | _ -> "badcase"
       with Failure m -> "error: " ^ m in
